@@ -55,6 +55,38 @@ type hostEnv struct {
 	printed []string
 }
 
+// hostObj is a host value with settable fields kept in assignment order (spec/RefSem.tla: "obj").
+type hostObj struct {
+	names []string
+	vals  []starlark.Value
+}
+
+func (o *hostObj) String() string        { return "obj(...)" }
+func (o *hostObj) Type() string          { return "obj" }
+func (o *hostObj) Freeze()               {}
+func (o *hostObj) Truth() starlark.Bool  { return true }
+func (o *hostObj) Hash() (uint32, error) { return 0, fmt.Errorf("unhashable: obj") }
+func (o *hostObj) Attr(name string) (starlark.Value, error) {
+	for i, n := range o.names {
+		if n == name {
+			return o.vals[i], nil
+		}
+	}
+	return nil, nil
+}
+func (o *hostObj) AttrNames() []string { return append([]string{}, o.names...) }
+func (o *hostObj) SetField(name string, v starlark.Value) error {
+	for i, n := range o.names {
+		if n == name {
+			o.vals[i] = v
+			return nil
+		}
+	}
+	o.names = append(o.names, name)
+	o.vals = append(o.vals, v)
+	return nil
+}
+
 func (h *hostEnv) predeclared() starlark.StringDict {
 	trace := func(thread *starlark.Thread, b *starlark.Builtin, args starlark.Tuple, kwargs []starlark.Tuple) (starlark.Value, error) {
 		ef := effect{Fn: b.Name(), Args: []obj{}, Kw: [][]any{}}
@@ -80,6 +112,16 @@ func (h *hostEnv) predeclared() starlark.StringDict {
 		"struct": starlark.NewBuiltin("struct", starlarkstruct.Make),
 		"trace":  starlark.NewBuiltin("trace", trace),
 		"boom":   starlark.NewBuiltin("boom", boom),
+		"obj": starlark.NewBuiltin("obj", func(_ *starlark.Thread, _ *starlark.Builtin, args starlark.Tuple, kwargs []starlark.Tuple) (starlark.Value, error) {
+			if len(args) > 0 {
+				return nil, fmt.Errorf("obj: unexpected positional arguments")
+			}
+			o := &hostObj{}
+			for _, kv := range kwargs {
+				o.SetField(string(kv[0].(starlark.String)), kv[1])
+			}
+			return o, nil
+		}),
 	}
 }
 
